@@ -1,5 +1,8 @@
 import Audit.Tool
 import Adb.Props.C01
 import Adb.Props.C01Engine
+import Adb.Props.C01Opt
 #audit_module Adb.Props.C01
 #audit_module Adb.Props.C01Engine
+#audit_module Adb.Lemmas.IndexOpt
+#audit_module Adb.Props.C01Opt
